@@ -141,6 +141,61 @@ def arena_stale(res, g, arena_names):
                     f"({sorted(c[1] for c in cs)[:4]}) clear {what}: stale efc/island pointers would alias recycled arena memory")
 
 
+
+def contact_init(res):
+    """R-CONTACT-INIT: contacts are built in uninitialised storage (stack arrays, recycled arena) and copied into d->contact.
+    Every member of struct mjContact must therefore be written somewhere in the collision driver (the translation unit that
+    creates contacts) — a member it never writes keeps whatever the memory held, and later stages that skip a contact (excluded,
+    in the gap) read it: the result then depends on the history of the arena."""
+    from .. import modref as _mr
+    DRV = "src/engine/engine_collision_driver.c"
+    res.rule("R-CONTACT-INIT", "every member of mjContact is written in the translation unit that creates contacts", floor=15)
+    fields = [f["name"] for f in ctypeinfo.fields("mjContact_")]
+    if len(fields) < 15:
+        raise AnalysisError(f"struct mjContact_ has only {len(fields)} members in the header probe")
+    u = engine.unit(DRV)
+    written = {}
+
+    def contact_member(e):
+        e = cir.strip(e)
+        while e is not None and e.get("k") in ("ArraySubscriptExpr",):
+            e = cir.strip(cir.kids(e)[0])
+        if e is not None and e.get("k") == "UnaryOperator" and e.get("op") == "&":
+            return contact_member(cir.kids(e)[0])
+        if e is not None and e.get("k") == "BinaryOperator" and e.get("op") in ("+", "-"):
+            return contact_member(cir.kids(e)[0])
+        if e is not None and e.get("k") == "MemberExpr":
+            b = cir.strip(cir.kids(e)[0])
+            t = (b.get("t") or "") if b is not None else ""
+            if re.search(r"\bmjContact(_)?\b", t.replace("struct ", "")) and "const" not in t.split("*")[0]:
+                return e.get("n")
+        return None
+    for name, fn in u.funcs.items():
+        if (fn.get("file") or u.tu) != u.tu:
+            continue
+        for x in cir.walk(fn):
+            k = x.get("k")
+            if (k == "BinaryOperator" and x.get("op") == "=") or k == "CompoundAssignOperator":
+                f = contact_member(cir.kids(x)[0])
+                if f:
+                    written.setdefault(f, name)
+            elif cir.is_call(x):
+                ce = cir.callee_expr(x)
+                pt = _mr._param_types((ce.get("ref") or {}).get("t") if ce is not None and ce.get("k") == "DeclRefExpr" else None)
+                for j, a in enumerate(cir.args(x)):
+                    f = contact_member(a)
+                    if f and ("*" in (cir.strip(a).get("t") or "") or "[" in (cir.strip(a).get("t") or "")) and \
+                            (j >= len(pt) or not _mr._const_pointee(pt[j])):
+                        written.setdefault(f, name)
+    for f in fields:
+        if f in written:
+            res.ok("R-CONTACT-INIT", f"mjContact:{f}", {"written_in": written[f]})
+        else:
+            res.bad("R-CONTACT-INIT", f"mjContact:{f}", DRV, 0,
+                    f"no function of {DRV} writes mjContact.{f}: a fresh contact carries whatever its storage held (stack / recycled "
+                    f"arena), and stages that skip the contact later leave it so — the value read there depends on earlier calls")
+
+
 def run(res, tier):
     g = callgraph.build()
     roots = [g.find(n) for n in ("mj_step", "mj_step1", "mj_step2", "mj_forward", "mj_forwardSkip", "mj_inverse", "mj_inverseSkip")]
@@ -250,6 +305,7 @@ def run(res, tier):
                     f"d->{name} is copied with size `{copied[name]}` but its row is {row['type']} x {row['nr']} x {row['nc']}")
 
     arena_stale(res, g, set(aptr))
+    contact_init(res)
     # ---------------------------------------------------------------- R-ITERATE-INIT
     # The solvers start from (qacc, efc_force).  The function that prepares that starting point (it reads qacc_warmstart and is
     # called by the constraint stage before the solver dispatch) must define both on every path: efc_force lives in the arena,
